@@ -176,3 +176,5 @@ def run(repo, chk):
            f"(build() hands out the live table of a root accumulator)" + (f": {leaks}" if leaks else ""))
     from .shared import routing_obligations
     routing_obligations(repo, chk, "R07.3", "record")
+    from .shared import build_precedence_obligations
+    build_precedence_obligations(repo, chk, "R07.4", "a record shows each captured name once, with the values of the level that declared it first")
